@@ -187,6 +187,11 @@ class Ctx:
         elif v.kind == "pi":
             z = z3.Real("pi")
             self.side.append(z3.And(z > _rv(PI_LO), z < _rv(PI_HI)))
+        elif v.kind == "invpi":
+            z = z3.Real("invpi")
+            self._z3vars[v.id] = z
+            self.side.append(z * self.z3var(PI_VAR) == 1)
+            return z
         elif v.kind in ("cos", "sin"):
             z = z3.Real(v.name)
             self._z3vars[v.id] = z
